@@ -456,6 +456,17 @@ def tags_rule(rep, prog, cfg, hs, cases, common):
         rep.check(not probs, "C14.tags", cfg + "/tag keys are one-to-one with field names", probs[0][0] if probs else "mpd_client/src/tag.rs",
                   "; ".join(m for _, m in probs), detail={"named_tags": n})
         rep.floor("C14.tags", cfg + "/named tags in the key tables", n, 31)
+    # a tag line whose name has no variant keeps the server's spelling (C20's fallback rule), and every value reaches the song as the
+    # line grammar captured it (C03's rule on the component parser)
+    from .C20 import fallback_verbatim
+    tf = [b for b in prog.bodies.values() if b.kind == "AssocFn" and norm(b.name) == "<mpd_client::tag::Tag as core::convert::TryFrom<&'a str>>::try_from"]
+    if len(tf) == 1:
+        fallback_verbatim(rep, "C14.tags", cfg + "/unknown tag names", tf[0], "tag::Tag", "Other", 1)
+    else:
+        rep.fail("C14.tags", cfg + "/unknown tag names", "mpd_client/src/tag.rs", "Tag::try_from not found (failing closed)")
+    from .C03 import verbatim_rule
+    with rep.importing("C03.grammar", "C14.tags.value"):
+        verbatim_rule(rep, prog, cfg)
 
 
 def disp_rule(rep, prog, cfg, fld):
